@@ -212,7 +212,7 @@ def retokenise_rule(A: Analysis, col: Collector, rule: str):
 @prop(
     "C23",
     technique="taint analysis: sources = field values in the argv-building helpers, sinks = shlex.split / split_cmd / str.split(), sanitizer = shlex.quote; string-building insertion points are enumerated per kind and root",
-    decides="no path/str element of a field value is inserted into a command string (f-string, str(), argstr_formatting) that is afterwards re-tokenised, unless it passed shlex.quote -- the structural necessary condition for 'reaches the command exactly as supplied'. Exclusions (audited, listed in the evidence): developer-supplied argstr/sep, the return value of a user formatter, append_args given as one string.",
+    decides="no path/str element of a field value is inserted into a command string (f-string, str(), argstr_formatting) that is afterwards re-tokenised, unless it passed shlex.quote -- the structural necessary condition for 'reaches the command exactly as supplied'. Exclusions (audited, listed in the evidence): developer-supplied argstr/sep, the return value of a user formatter, append_args given as one string. Additionally: split_cmd tokenises with shlex.split or a lexer configured like it (no comment characters; whitespace_split); no other tokeniser (str.split) is applied to the built argument string; a string that already contains a field value is never used as a format template; the clean-up of emptied optional parts must not run over formatted values (known finding).",
     not_decided="the formatting conventions of argstr themselves (C22), Windows (posix=False) tokenisation.",
     level_note="Trusted: shlex.quote/shlex.split are inverse on POSIX; the taint sources are the parameters named values/value/val of the helpers and everything assigned from them.",
 )
@@ -228,7 +228,7 @@ def check_c23(A: Analysis, col: Collector):
 @prop(
     "C24",
     technique="sanitizer rule on the cmdline property: every argv element concatenated into the displayed string must pass shlex.quote (or the string is shlex.join(argv)); the argv must come from the same _command_args the environments execute",
-    decides="ShellTask.cmdline renders exactly the list returned by self._command_args(values=...) -- the function every environment executes -- and every element that is concatenated into the returned string passes through shlex.quote / shlex.join, so that POSIX splitting gives the elements back.",
+    decides="ShellTask.cmdline renders exactly the list returned by self._command_args(values=...) -- the function every environment executes -- and every element that is concatenated into the returned string passes through shlex.quote / shlex.join, so that POSIX splitting gives the elements back. The identity of the unquoted-concatenation finding includes the shape of the ad-hoc quoting condition.",
     not_decided="that cmdline's values (templates resolved against the cwd) equal the job's values (by design they differ in the output directory).",
     level_note="Trusted: shlex.quote renders any string as one POSIX shell word.",
 )
